@@ -61,6 +61,7 @@ def reference(work, modelpath, tag=""):
 
 class Sched:
     """Executes one schedule with real processes."""
+    MKDIR_STEP = True       # the cache directory does not exist beforehand; its creation is a step of the schedule
 
     def __init__(self, tid, steps, work, modelpath, refvalue, finalname):
         self.tid = tid
@@ -69,7 +70,7 @@ class Sched:
         self.ctl = os.path.join(self.dir, "ctl")
         self.cache = os.path.join(self.dir, "cache")
         self.tmp = os.path.join(self.dir, "tmp")
-        for d in (self.ctl, self.cache, self.tmp):
+        for d in (self.ctl, self.tmp) + (() if self.MKDIR_STEP else (self.cache,)):
             os.makedirs(d)
         self.modelpath = modelpath
         self.ref = refvalue
@@ -91,7 +92,7 @@ class Sched:
                 full = None
         final = "absent"
         npp = 0
-        for f in os.listdir(self.cache):
+        for f in (os.listdir(self.cache) if os.path.isdir(self.cache) else []):
             path = os.path.join(self.cache, f)
             try:
                 size = os.path.getsize(path)
@@ -141,6 +142,8 @@ class Sched:
         env = vlib.worker_env(self.cache, {
             "VERIF_CTL": self.ctl, "VERIF_PROC": p, "CC": os.path.join(vlib.VERIF, "harness", "fakecc"),
             "VERIF_REALCC": "cc", "TMPDIR": self.tmp})
+        if self.MKDIR_STEP:
+            env["VERIF_MKDIR_SYNC"] = "1"
         self.procs[p] = subprocess.Popen(
             [vlib.VENV_PY, os.path.join(vlib.VERIF, "harness", "w_build.py"), self.ctl, p, self.modelpath],
             env=env, cwd=self.dir, stdout=subprocess.DEVNULL, stderr=subprocess.DEVNULL,
@@ -166,7 +169,7 @@ class Sched:
             if ok:
                 self.release(p, "start")
                 ok = self.wait_new(p) is not None
-        elif label in ("lookup", "writesrc", "publish", "unlink", "dlopen", "ccbegin", "cchalf", "ccend"):
+        elif label in ("lookup", "mkdir", "writesrc", "publish", "unlink", "dlopen", "ccbegin", "cchalf", "ccend"):
             if (p + "." + label + ".reached") not in self.reached(p):
                 ok = self.wait_new(p, label + ".reached") is not None
             if ok:
@@ -277,6 +280,8 @@ class Sched:
 
 
 class PipeSched(Sched):
+    MKDIR_STEP = False
+
     """Sched + Edit steps (growth: Pipeline.tla): the definition file is rewritten between process
     steps; one final library name per source version."""
 
@@ -420,6 +425,10 @@ def run(chk, args):
     if not w["violated"]:
         raise vlib.Machinery("vacuity control: the in-place protocol should violate a property")
     chk.notes["vacuity_control"] = "Build_inplace.cfg violates %s as it must" % w["violated"]
+    w3 = vlib.tlc("Build", "Build_mkdirExclusive.cfg", timeout=600)
+    if w3["violated"] != "NoneBroken":
+        raise vlib.Machinery("vacuity control: test-then-create of the cache directory should violate NoneBroken")
+    chk.notes["vacuity_control_mkdir"] = "Build_mkdirExclusive.cfg violates NoneBroken as it must"
     w2 = vlib.tlc("Build", "Build_signalOk.cfg", timeout=600)
     if not w2["violated"]:
         raise vlib.Machinery("vacuity control: taking a compiler killed by a signal for a success should violate a property")
